@@ -504,28 +504,16 @@ func checkSchemaTable(s *ast.Schema) error {
 		if string(def.Kind) != td.Kind {
 			return fmt.Errorf("type %s kind %s, table says %s", name, def.Kind, td.Kind)
 		}
-		n := 0
-		for _, f := range def.Fields {
-			if strings.HasPrefix(f.Name, "__") {
-				continue
+		for _, tf := range td.Fields {
+			f := def.Fields.ForName(tf.Name)
+			if f == nil {
+				return fmt.Errorf("%s.%s missing in generated schema", name, tf.Name)
 			}
-			n++
-			found := false
-			for _, tf := range td.Fields {
-				if tf.Name == f.Name {
-					found = true
-					if tf.Type != f.Type.Name() {
-						return fmt.Errorf("%s.%s type %s, table says %s", name, f.Name, f.Type.Name(), tf.Type)
-					}
-				}
-			}
-			if !found {
-				return fmt.Errorf("%s.%s missing in table", name, f.Name)
+			if tf.Type != f.Type.Name() {
+				return fmt.Errorf("%s.%s type %s, table says %s", name, tf.Name, f.Type.Name(), tf.Type)
 			}
 		}
-		if n != len(td.Fields) {
-			return fmt.Errorf("%s has %d fields, table %d", name, n, len(td.Fields))
-		}
+		// fields of the probe that the table does not know are outside the grammar (tolerated)
 		var objs []string
 		for _, pt := range s.GetPossibleTypes(def) {
 			if pt.Kind == ast.Object {
@@ -632,6 +620,9 @@ func main() {
 		if d := complexity.VerifNegativeOperands() - before; d != 144-64 {
 			fail("safeAdd observer saw %d negative-operand calls on the grid, expected 80", d)
 		}
+	}
+	if *shard == 0 {
+		res.Counts["complexityroot_members_outside_schema_table"] = int64(ct.extra)
 	}
 	negAfterGrid := complexity.VerifNegativeOperands()
 
